@@ -207,6 +207,10 @@ class t2grid(object):
             else:
                 rock = self.rocktype[rockname]
                 del self.rocktype[rockname]
+                # (blocks may hold another rocktype object of the same name,
+                # e.g. after adding two grids together)
+                for blk in self.blocklist:
+                    if blk.rocktype.name == rockname: blk.rocktype = rock
                 rock.name = newrockname
                 self.rocktype[newrockname] = rock
         else: raise Exception("Rocktype " + rockname + " not found.")
